@@ -871,6 +871,14 @@ def leaf_lines(rng, fns, count):
             for fn in (11, 12, 13):
                 if fn in fns:
                     out.append("%d %d %d" % (fn, x, y))
+    if 14 in fns:
+        vals = [0, 1, 2, 3, 4, 5, 7, 8, 9, 2 ** 31, 2 ** 31 + 1, 2 ** 32 - 1, 2 ** 32, 2 ** 62, 2 ** 62 + 1, 2 ** 63 - 1, 2 ** 63]
+        vals += [2 ** k + d for k in range(2, 63) for d in (-1, 0, 1)]
+        for _ in range(count):
+            k = rng.below(64)
+            vals.append(min(2 ** 63, (2 ** k) + rng.below(2 ** k)))
+        for v in vals:
+            out.append("14 %d" % v)      # x > 2^63 (result 0 by wrap-around) does not fit the harness's signed token reader
     for fn in (3, 6, 8):
         if fn in fns:
             for e in small + big32 + [I32MIN]:
